@@ -492,7 +492,12 @@ ObsPStart(s, e) ==
             !.outs[e.obj] = Append(@, IF e.ov THEN "x" ELSE "?"),   \* an overrunning call can only be recorded as a timeout
             !.seqStarted = IF d.k = "act" THEN @ \cup {SeqName(d.b, d.s)} ELSE @,
             !.invoked = IF d.k = "act" THEN @ \cup {SeqName(d.b, d.s)} ELSE @,
-            !.defStarted = IF d.k = "cact" /\ d.g = "deferred" THEN @ \cup {d.b} ELSE @]
+            !.defStarted = IF d.k = "cact" /\ d.g = "deferred" THEN @ \cup {d.b} ELSE @,
+            \* an invocation that will outlive the timeout has failed its attempt when it starts; its own return may come
+            \* after the engine has long judged the group (found by TLC with Overruns: C04_Reason on the model)
+            !.lastOut[e.obj] = IF e.ov THEN "overrun" ELSE @,
+            !.grpFail = IF e.ov /\ d.k = "cact" /\ d.g # "bypass" /\ Len(s.outs[e.obj]) + 1 >= Retries(s, d) + 1
+                        THEN [@ EXCEPT ![GroupOfAct(d)] = TRUE] ELSE @]
 
 ObsPEnd(s, e) ==
   LET d == D(s, e.obj)
